@@ -66,6 +66,25 @@ def make_cfg(seed, i):
         cfg["args"]["rhoend"] = float(rb * 10.0 ** rng.uniform(-2.5, -0.3))    # many restarts
     if cfg.get("reg"):
         up["logging.save_poisedness"] = False
+    if i % 12 == 5:
+        # long growing phase: inverse problem (m < n) started from one direction, with the safety-step variants of the growing code
+        n = int(rng.integers(5, 11))
+        m = int(rng.integers(2, n))
+        cfg = dict(prob=dict(kind=gen.pick(rng, ["linear", "sinlin"]), n=n, m=m, pseed=int(rng.integers(0, 2 ** 31)), cond=10.0, scale=1.0),
+                   x0=(rng.normal(size=n)).tolist(), lower=None, upper=None,
+                   args=dict(maxfun=int(gen.pick(rng, [40, 80, 150])), rhobeg=float(10.0 ** rng.uniform(-1.5, 0)), rhoend=1e-6),
+                   user_params={"logging.save_diagnostic_info": True, "logging.save_poisedness": False,
+                                "growing.ndirs_initial": int(rng.integers(1, 3))})
+        up = cfg["user_params"]
+        u = r()
+        if u < 0.5:
+            up["growing.safety.reduce_delta"] = True
+        elif u < 0.75:
+            up["growing.safety.full_geom_step"] = True
+        if r() < 0.4:
+            up["growing.do_geom_steps"] = True
+        if r() < 0.3:
+            up["growing.reset_delta"] = True
     return cfg
 
 
